@@ -888,6 +888,27 @@ def mk_ref(e):
     return ('ref', e)
 
 
+def mk_try(x):
+    """success payload of `?` applied to x; sees through Ok(..) constructions and phis of them"""
+    if x[0] == 'aggr' and x[1] == 'adt' and x[2].endswith(('Result::Ok', 'Option::Some')) and x[3]:
+        return x[3][0][1]
+    if x[0] == 'phi':
+        outs = []
+        for a in x[1]:
+            if a[0] == 'aggr' and a[1] == 'adt' and a[2].endswith(('Result::Err', 'Option::None')):
+                continue
+            if a[0] == 'call' and a[1].endswith('from_residual'):
+                continue
+            v = mk_try(a)
+            if v not in outs:
+                outs.append(v)
+        if len(outs) == 1:
+            return outs[0]
+        if outs:
+            return ('phi', tuple(outs))
+    return ('try', x)
+
+
 def mk_field(e, name):
     k = e[0]
     if k == 'aggr':
@@ -901,10 +922,8 @@ def mk_field(e, name):
     if k == 'variant':
         inner = e[1]
         # success payload of `?`
-        if e[2] == 'Continue' and inner[0] == 'call' and inner[1].endswith('Try>::branch') and name == '0':
-            return ('try', inner[2][0])
         if e[2] == 'Continue' and inner[0] == 'call' and 'Try' in inner[1] and inner[1].endswith('branch') and name == '0':
-            return ('try', inner[2][0])
+            return mk_try(inner[2][0])
     if k == 'phi':
         return ('phi', tuple(mk_field(x, name) for x in e[1]))
     return ('field', e, name)
@@ -1048,6 +1067,8 @@ def subst(e, mapping):
         return mk_ref(r[1])
     if r[0] == 'field':
         return mk_field(r[1], r[2])
+    if r[0] == 'try':
+        return mk_try(r[1])
     return r
 
 
@@ -1219,7 +1240,69 @@ class Program:
             return mk_ref(r[1])
         if r[0] == 'field':
             return mk_field(r[1], r[2])
+        if r[0] == 'try':
+            return mk_try(r[1])
         return r
+
+    def inline_only(self, e, names, depth=3):
+        """inline calls to the local bodies in `names` only; call sites inside the inlined expression are
+        tagged with the site of the call they were inlined at, so two inlinings of one helper stay distinct"""
+        if not isinstance(e, tuple) or not e:
+            return e
+        if e[0] in ('int', 'bool', 'str', 'bytes', 'unit', 'const', 'fn', 'local', 'cyc', 'unknown', 'param'):
+            return e
+        if e[0] == 'call':
+            args = tuple(self.inline_only(a, names, depth) for a in e[2])
+            tgt = self.bodies.get(e[1])
+            if tgt is not None and e[1] in names and depth > 0:
+                mapping = {i + 1: a for i, a in enumerate(args)}
+                r = tag_sites(subst(tgt.ret_expr(), mapping), e[3] if len(e) > 3 else None, tgt.path)
+                return self.inline_only(r, names, depth - 1)
+            return ('call', e[1], args) + tuple(e[3:])
+        out = []
+        for c in e:
+            if isinstance(c, tuple):
+                if c and isinstance(c[0], str) and c[0] in _KINDS:
+                    out.append(self.inline_only(c, names, depth))
+                else:
+                    out.append(tuple(self.inline_only(x, names, depth) if isinstance(x, tuple) else x for x in c))
+            else:
+                out.append(c)
+        r = tuple(out)
+        if r[0] == 'deref':
+            return mk_deref(r[1])
+        if r[0] == 'ref':
+            return mk_ref(r[1])
+        if r[0] == 'field':
+            return mk_field(r[1], r[2])
+        if r[0] == 'try':
+            return mk_try(r[1])
+        return r
+
+
+def tag_sites(e, outer, callee_path):
+    """append `outer` to the site of every call that textually sits in body `callee_path`"""
+    if not isinstance(e, tuple) or not e:
+        return e
+    if e[0] == 'call' and len(e) > 3:
+        s = e[3]
+        inner = s
+        while isinstance(inner, tuple) and inner and isinstance(inner[0], tuple):
+            inner = inner[0]
+        args = tuple(tag_sites(a, outer, callee_path) for a in e[2])
+        if isinstance(inner, tuple) and inner and inner[0] == callee_path and not (isinstance(s, tuple) and len(s) == 2 and s[1] == outer and isinstance(s[0], tuple)):
+            return ('call', e[1], args, (s, outer))
+        return ('call', e[1], args, s)
+    out = []
+    for c in e:
+        if isinstance(c, tuple):
+            if c and isinstance(c[0], str) and c[0] in _KINDS:
+                out.append(tag_sites(c, outer, callee_path))
+            else:
+                out.append(tuple(tag_sites(x, outer, callee_path) if isinstance(x, tuple) else x for x in c))
+        else:
+            out.append(c)
+    return tuple(out)
 
 
 def _rv_operands(rv):
